@@ -57,6 +57,7 @@ pub struct Node {
     /// the runtime is the only way to end them - and to release the database and memory they hold -
     /// while the process goes on with other nodes.
     rt: Option<tokio::runtime::Runtime>,
+    has_pool: bool,
 }
 
 #[derive(Clone, Debug)]
@@ -125,11 +126,10 @@ impl Node {
         if let Some(a) = &opts.ancient {
             std::fs::create_dir_all(a).map_err(|e| e.to_string())?;
         }
-        let rt = if opts.pool {
-            Some(tokio::runtime::Builder::new_multi_thread().worker_threads(2).thread_name("ckbmc-node").enable_all().build().map_err(|e| format!("node runtime: {e}"))?)
-        } else {
-            None
-        };
+        // every node gets a runtime of its own (see the field's comment): also a chain-only node spawns
+        // a task that only ends with the process - the header map's timer, which keeps the header
+        // map's sled database (a file, a flusher thread and about 7 MB) alive
+        let rt = Some(tokio::runtime::Builder::new_multi_thread().worker_threads(if opts.pool { 2 } else { 1 }).thread_name("ckbmc-node").enable_all().build().map_err(|e| format!("node runtime: {e}"))?);
         let handle = match &rt {
             Some(rt) => ckb_async_runtime::Handle::new(rt.handle().clone(), None),
             None => runtime(),
@@ -160,7 +160,7 @@ impl Node {
         let scope = ChainServiceScope::new(pack.take_chain_services_builder());
         let relay_rx = Mutex::new(Some(pack.take_relay_tx_receiver()));
         drop(pack);
-        Ok(Node { shared, scope: Some(scope), dir: dir.to_path_buf(), deliveries: Arc::new(Mutex::new(vec![])), _net_dir: net_dir, relay_rx, rt })
+        Ok(Node { shared, scope: Some(scope), dir: dir.to_path_buf(), deliveries: Arc::new(Mutex::new(vec![])), _net_dir: net_dir, relay_rx, rt, has_pool: opts.pool })
     }
 
     pub fn chain(&self) -> &ChainController {
@@ -365,9 +365,11 @@ impl Node {
         if let Some(rt) = self.rt.take() {
             // the hook's sent/done counters are process-wide: work handed to this node's background
             // tasks must be finished before they are killed, or no pool would ever look idle again
-            let t = Instant::now();
-            while !ckb_tx_pool::verif::background_idle() && t.elapsed() < Duration::from_secs(10) {
-                std::thread::sleep(Duration::from_micros(200));
+            if self.has_pool {
+                let t = Instant::now();
+                while !ckb_tx_pool::verif::background_idle() && t.elapsed() < Duration::from_secs(10) {
+                    std::thread::sleep(Duration::from_micros(200));
+                }
             }
             rt.shutdown_timeout(Duration::from_secs(5));
         }
